@@ -48,4 +48,11 @@ func runC11(p *Prog, r *Report) {
 	r.Count("e3.guarded_fields", nGuarded)
 	r.Count("e3.accesses_checked", nAcc)
 	r.Floor("C11.1/E3", "e3.guarded_fields", 100)
+
+	r.Describe("C11.2/E2", "global lock-order graph (type-based locks + Once pseudo-locks) is acyclic")
+	e2Obligations(p, r, "C11.2/E2")
+	r.Floor("C11.2/E2", "e2.order_edges", 10)
+
+	r.Describe("C11.3/E1", "no lock is acquired while already held (directly or through a callee)")
+	e1Obligations(p, r, "C11.3/E1", map[string]bool{"double-lock": true, "callee-relock": true})
 }
